@@ -91,6 +91,30 @@ Definition call_dots (s : wstate) (c : call) : nat :=
 Definition preamble_indent (ind : option wv) : wv := match ind with Some v => v | None => WInt GenText.default_indent end.
 Definition meta_fmt (fmt : option wv) : wv := match fmt with Some v => v | None => WStr (ascii_text GenText.meta_format_json) end.
 
+(* write_meta after the fix `if not (encoding or self._cur_encoding): content = content.encode('ascii')`:
+   [meta_enc_b s c]: at the write_meta call c made in state s an encoding IS in force (the argument, or else the
+   innermost open container's, is truthy).  Then the call behaves exactly as before the fix (the JSON text is
+   encoded like any text content: [CText]).  With NO encoding in force — only possible in a writer constructed with
+   encoding=None, [enc_ok] allows that — the call used to raise TypeError and is now accepted, the pure-ASCII JSON
+   being handed on as bytes ([CBytes]); the reader then yields bytes and asks json.loads about BYTES.
+   [metas_encoded s cs]: the first case at every write_meta of cs; [RoundTripCor.metas_encoded_init]: it holds for
+   every program of a writer constructed with an encoding. *)
+Definition meta_enc_b (s : wstate) (c : call) : bool :=
+  match c with
+  | WriteMeta _ enc _ => wv_truthy (Encodings.w_content_encoding enc true (hd WNone (w_stack s)))
+  | _ => true
+  end.
+
+Fixpoint metas_encoded (s : wstate) (cs : list call) : Prop :=
+  match cs with
+  | [] => True
+  | c :: t => meta_enc_b s c = true /\ metas_encoded (fst (do_call c s)) t
+  end.
+
+(* the content write_meta hands to _new_content_section for the dumped JSON [d] *)
+Definition meta_content (s : wstate) (enc : wv) (d : bytes) : wcontent :=
+  if wv_truthy (Encodings.w_content_encoding enc true (hd WNone (w_stack s))) then CText (ascii_text d) else CBytes d.
+
 (* what _prepare_content returned for the call: (body, line_endings value); ([], None) for containers *)
 Definition call_prepared (s : wstate) (c : call) : bytes * wv :=
   let get (r : res (bytes * wv)) := match r with Ok p => p | Err _ => ([], WNone) end in
@@ -98,7 +122,7 @@ Definition call_prepared (s : wstate) (c : call) : bytes * wv :=
   | WritePreamble (WStr t) enc ind le _ => get (prepare_content s (CText t) (preamble_indent ind) le enc true)
   | WriteMeta (WDict j) enc _ =>
       match json_dump j with
-      | Ok d => get (prepare_content s (CText (ascii_text d)) WNone WNone enc true)
+      | Ok d => get (prepare_content s (meta_content s enc d) WNone WNone enc true)
       | Err _ => ([], WNone)
       end
   | WriteDiff (WBytes b) _ enc le => get (prepare_content s (CBytes b) WNone le enc false)
@@ -395,29 +419,20 @@ Proof.
   exists t. split; [reflexivity|]. split; [reflexivity|exact H].
 Qed.
 
-(* write_meta after the fix `if not (encoding or self._cur_encoding): content = content.encode('ascii')`:
-   [meta_enc_b s c]: at the write_meta call c made in state s an encoding IS in force (the argument, or else the
-   innermost open container's, is truthy).  Then the call behaves exactly as before the fix (the JSON text is
-   encoded like any text content).  With NO encoding in force — only possible in a writer constructed with
-   encoding=None, [enc_ok] allows that — the call used to raise TypeError and is now accepted, the JSON being handed
-   on as bytes; the reader then yields bytes and asks json.loads about bytes.  That path is outside the statements
-   of C01 (whole sequences), C02_spec, C05_full and C06_full: they carry [meta_enc_b] / [metas_encoded] as a
-   hypothesis.  [metas_encoded_init]: it holds for every program of a writer constructed with an encoding. *)
-Definition meta_enc_b (s : wstate) (c : call) : bool :=
-  match c with
-  | WriteMeta _ enc _ => wv_truthy (Encodings.w_content_encoding enc true (hd WNone (w_stack s)))
-  | _ => true
-  end.
-
-Fixpoint metas_encoded (s : wstate) (cs : list call) : Prop :=
-  match cs with
-  | [] => True
-  | c :: t => meta_enc_b s c = true /\ metas_encoded (fst (do_call c s)) t
-  end.
-
 Lemma meta_enc_has_enc : forall s md enc fmt, w_stack s <> [] -> meta_enc_b s (WriteMeta md enc fmt) = true ->
   (if wv_truthy enc then Ok true else do ce <- cur_encoding s; Ok (wv_truthy ce)) = Ok true.
 Proof. intros s md enc fmt Hne H. apply WriterFacts.meta_has_enc; [exact Hne|exact H]. Qed.
+
+(* the writer's test is [meta_enc_b] *)
+Lemma has_enc_meta_enc : forall s md enc fmt b, w_stack s <> [] ->
+  (if wv_truthy enc then Ok true else do ce <- cur_encoding s; Ok (wv_truthy ce)) = Ok b ->
+  meta_enc_b s (WriteMeta md enc fmt) = b.
+Proof.
+  intros s md enc fmt b Hne H. cbn [meta_enc_b]. unfold Encodings.w_content_encoding.
+  destruct (wv_truthy enc) eqn:E; cbn [negb andb].
+  - injection H as <-. exact E.
+  - rewrite (WriterFacts.cur_encoding_hd s Hne) in H. cbn [bind] in H. injection H as <-. reflexivity.
+Qed.
 
 (* inversion of an accepted write_meta, whatever the encodings: [has_enc] is the writer's test *)
 Lemma meta_call_inv_gen : forall md enc fmt s s',
